@@ -44,12 +44,17 @@ pub const REPEATS: [(&str, Option<u32>); 5] = [("1x", Some(1)), ("3x", Some(3)),
 pub const EASINGS: [&str; 3] = ["Easing::OutQuad", "mina::Easing::In", "MY_EASE"];
 pub const POSITIONS: [(&str, f64); 9] = [("from", 0.0), ("to", 1.0), ("0%", 0.0), ("10%", 0.10), ("25%", 0.25), ("40%", 0.40), ("100%", 1.0), ("12.5%", 0.125), ("33.3%", 0.333)];
 
+pub const NBODIES: usize = 5;
+
 pub fn bodies() -> Vec<(&'static str, BodyS)> {
     vec![
         ("{ a: 1.0 }", BodyS::Fields(vec![("a", "1.0")])),
         ("{ a: 2.0, k: 7 }", BodyS::Fields(vec![("a", "2.0"), ("k", "7")])),
         ("{ k: 3, }", BodyS::Fields(vec![("k", "3")])),
         ("{}", BodyS::Fields(vec![])),
+        // fields not in alphabetical order: the setters are called in the order written (field expressions may
+        // have side effects)
+        ("{ k: 7, a: 2.0 }", BodyS::Fields(vec![("k", "7"), ("a", "2.0")])),
     ]
 }
 
